@@ -8,6 +8,7 @@ mkdir -p .build evidence
 (cd harness && go build -tags verif -o ../.build/gofacts ./cmd/gofacts && ../.build/gofacts ../lean/SST/Generated)
 [ -f tools/ksy2lean.py ] && python3 tools/ksy2lean.py --repo /repo
 [ -d tools/orderfacts ] && (cd tools/orderfacts && go build -o ../../.build/orderfacts . && ../../.build/orderfacts /repo ../../lean/SST/Generated)
+[ -d tools/errfacts ] && (cd tools/errfacts && go build -o ../../.build/errfacts . && ../../.build/errfacts /repo ../../lean/SST/Generated)
 [ -d tools/lockfacts ] && (cd tools/lockfacts && go build -o ../../.build/lockfacts . && ../../.build/lockfacts /repo ../../lean/SST/Generated)
 MODS=$(python3 -c "
 import sys; sys.path.insert(0,'tools')
